@@ -567,7 +567,7 @@ pub fn build_info(units: &[UnitSpec], in_types: bool) -> BuiltInfo {
     let mut pos: std::collections::BTreeMap<usize, (usize, usize)> = std::collections::BTreeMap::new();
     let mut unit_starts: Vec<usize> = vec![0; units.len()];
     // iterate layout to a fixed point (ULEB-encoded references change size with their value)
-    for _round in 0..10 {
+    for _round in 0..100 {
         let mut w = W::new(units.first().map(|u| u.cfg.big).unwrap_or(false));
         let mut new_pos = std::collections::BTreeMap::new();
         let mut new_starts = Vec::new();
